@@ -139,8 +139,7 @@ def run(res, tier, seed, model_ok, search):
                 "placing orders; every scenario runs three times in fresh interpreters (two hash seeds and wall clocks; one run that raises from a "
                 "callback). non-trivial = more than one stream or a filter; distinct = scenario index")
     n = 600 if (tier != "quick" or search) else 48
-    with mp.Pool(min(16, os.cpu_count() or 4)) as pool:
-        outs = pool.map(_work, [(seed, i) for i in range(n)], chunksize=1)
+    outs = common.pmap(_work, [(seed, i) for i in range(n)], chunksize=1)
     lines, expects, metas = [], [], []
     differing_hash = 0
     for o in outs:
